@@ -123,7 +123,7 @@ claim("C01", "model_checking",
 
 # additions made while strengthening the checks against seeded changes (DESIGN.md section 8.6); appended to the text above
 EXTRA = {
-    "C01": " The molecular template is tilted against the axes; one grand-canonical history declares an accessible volume and is stopped, rebuilt from its dictionary and continued. A Hamiltonian history is stopped, rebuilt and continued; a composite displacement + exchange proposal is part of the grand-canonical ideal-gas histories.",
+    "C01": " The molecular template is tilted against the axes; one grand-canonical history declares an accessible volume and is stopped, rebuilt from its dictionary and continued. A Hamiltonian history is stopped, rebuilt and continued; a composite displacement + exchange proposal is part of the grand-canonical ideal-gas histories. Harmonic particles whose spring is half calculator, half Hookean tether; a Hamiltonian history coarse enough to reject a good part of its trajectories.",
     "C02": " Sequences of four trials on one configured simulation (parameters set once) and runs started after a manual pre-strain of the cell (the first trial is judged against the volume at the start of the run; the uniform is scripted between the two candidate ratios) are judged by the same mirror. Left-handed cells are part of the lattice realisation; real grand-canonical runs (atomic and molecular ideal gas) are judged trial by trial with the particle number really in the box; DefaultCriteria.tla (first match = most specific match in every driver's default-criteria table) is replayed through add_move. Exchange species with user-set masses; real canonical runs with a Hookean restraint (constraint energy is part of the Boltzmann factor). The Hamiltonian clause after trajectories refused by the user's geometric check (atoms that bring momenta of their own).",
     "C03": " MC_QMC.tla is also checked exhaustively (11 invariants over 7 set-ups incl. FixCom and composite exchange) and its complete behaviours are replayed into the real drivers (spec -> code). Runs in two legs with a manual edit of the atoms between them (edit event / UserEdit action), with and without the user resetting the remembered energy. One trial that exchanges and displaces (plain composite, both orders) is part of the scenarios, of MC_QMC.tla and of the replay. MultiContexts.tla (the statement for a family of systems) is replayed on the real MultiContexts with Displacement / Deformation / Exchange / Hamiltonian members. Scenario calculators depend on the species; family gcmix (particles of different species, double deletions, two deleting exchange moves followed by a displacement in one trial).",
     "C04": " MC_QMC.tla (exhaustive, with a Restart action: the run continues from its restart dictionary with a fresh calculator) and its replay into the real drivers; a quarter of the recorded runs start from a simulation rebuilt through to_dict / JSON / from_dict with a fresh calculator. Runs in two legs with a manual edit (positions, and cell in the cell-changing ensembles) between them; the user resets the remembered energy. A Hookean restraint in the canonical scenarios (the reported / remembered energy includes it, the calculator's results do not); species-dependent calculators and family gcmix.",
